@@ -152,7 +152,7 @@ def near_miss(ctx, rec):
     """sequences of requests to origins that differ in exactly one component never share a stream, and each lands on a stream
     established to exactly its own host:port"""
     rng = ctx.rng
-    n = 30 if ctx.quick else 300
+    n = 30 if ctx.quick else 6000
     for _ in range(n):
         c = {"proxy": rng.choice(estb2.PROXY_MODES), "http1": True, "http2": rng.random() < 0.3, "alpn_result": "http/1.1"}
         if c["http2"] and rng.random() < 0.5:
